@@ -253,6 +253,55 @@ def render(idx, s):
     return trait_src + f"    pub fn run() -> Result<(), String> {{{body_fn}    }}\n"
 
 
+def render_assoc(idx, recv, override):
+    """Associated consts / types: the default body must see the same items as `<Unimock as Tr>`."""
+    attr = "const N: u8 = 9; type T = u16;" + (" const K: u8 = 7;" if override else "")
+    k = 7 if override else 1
+    decl = recv_decl(recv)
+    if recv == "ref":
+        call = "u.p(3)"
+        setup = "let u = Unimock::new(clause);"
+    elif recv == "mut":
+        call = "u.p(3)"
+        setup = "let mut u = Unimock::new(clause);"
+    elif recv == "own":
+        call = "u.clone().p(3)"
+        setup = "let u = Unimock::new(clause);"
+    elif recv == "pin":
+        call = "core::pin::Pin::new(&mut u).p(3)"
+        setup = "let mut u = Unimock::new(clause);"
+    else:
+        raise ValueError(recv)
+    return f"""    #[unimock(api=Mk, {attr})]
+    pub trait Tr {{
+        const K: u8 = 1;
+        const N: u8;
+        type T: From<u8> + Into<u32>;
+        fn r0(&self, x: u8) -> u32;
+        fn p({decl}, x: u8) -> u32 where Self: Sized {{
+            let widened: Self::T = Self::T::from(Self::N);
+            self.r0(x + Self::K) + widened.into()
+        }}
+    }}
+    pub fn run() -> Result<(), String> {{
+        if <Unimock as Tr>::K != {k} || <Unimock as Tr>::N != 9 {{
+            return Err(format!("<Unimock as Tr>::K = {{}}, N = {{}}", <Unimock as Tr>::K, <Unimock as Tr>::N));
+        }}
+        let clause = Mk::r0.next_call(matching!({3 + k})).answers(&|_, x| 100 + x as u32);
+        {setup}
+        let got = vh::obs::catch(|| {call});
+        let want = 100 + {3 + k} + 9;
+        if got != Ok(want) {{
+            return Err(format!("the default body reading Self::K / Self::N / Self::T gave {{got:?}}, the same body evaluated with the items of <Unimock as Tr> gives {{want}}"));
+        }}
+        #[allow(unused_mut)]
+        let mut u = u;
+        let _ = &mut u;
+        vh::obs::catch(move || drop(u)).map_err(|m| format!("verification failed although the ordered call was made: {{m}}"))
+    }}
+"""
+
+
 def shapes(tier):
     out = []
     for recv, body, sig, clause, mode, order in itertools.product(RECVS, BODIES, ["simple", "rich"], ["implicit", "explicit"], ["strict", "partial"], ["unordered", "ordered"]):
@@ -278,6 +327,10 @@ def run(pid, tier, replay, start):
     insts = []
     for s in shapes(tier):
         insts.append(Instance(len(insts), key(s), render(len(insts), s), s))
+    for recv in ("ref", "mut", "own", "pin"):
+        for override in (True, False):
+            k = f"assoc-items/{recv}/{'attribute-overrides-default-const' if override else 'default-const-kept'}"
+            insts.append(Instance(len(insts), k, render_assoc(len(insts), recv, override), {"body": 1, "recv": recv}))
     if replay:
         import json
         want = json.load(open(replay))["case"]["shape"]
